@@ -60,6 +60,12 @@ func c07Graphs(thorough bool) []c07Graph {
 			want: []string{"b", "a", "page"}, data: map[string]any{"fromfill": "FF"}, wantTxt: []string{"PT/FF", "PT|FF", "PT FF"}},
 		c07Graph{desc: "layout-frontmatter-collides", files: map[string]string{"p.vuego": c07Page("a"), "layouts/a.vuego": "---\ntitle: LT\n---\n" + `<div data-m="a"><i>{{ title }}</i><div v-html="content"></div></div>`},
 			want: []string{"a", "page"}, data: map[string]any{"fromfill": "FF", "title": "FILLT"}, wantTxt: []string{"PT FF", "<i>LT</i>"}},
+		// a layout key that is present but empty names no layout: the default base applies iff it exists
+		c07Graph{desc: "empty-layout-key-null-no-base", files: map[string]string{"p.vuego": "---\ntitle: PT\nlayout:\n---\n<p data-m=\"page\">{{ title }} {{ fromfill }}</p>"}, want: []string{"page"}},
+		c07Graph{desc: "empty-layout-key-string-no-base", files: map[string]string{"p.vuego": "---\ntitle: PT\nlayout: \"\"\n---\n<p data-m=\"page\">{{ title }} {{ fromfill }}</p>"}, want: []string{"page"}},
+		c07Graph{desc: "empty-layout-key-fill-no-base", files: map[string]string{"p.vuego": c07Page("")}, data: map[string]any{"fromfill": "FF", "layout": ""}, want: []string{"page"}},
+		c07Graph{desc: "empty-layout-key-nil-fill-no-base", files: map[string]string{"p.vuego": c07Page("")}, data: map[string]any{"fromfill": "FF", "layout": nil}, want: []string{"page"}},
+		c07Graph{desc: "empty-layout-key-with-base", files: map[string]string{"p.vuego": "---\ntitle: PT\nlayout:\n---\n<p data-m=\"page\">{{ title }} {{ fromfill }}</p>", "layouts/base.vuego": c07Layout("base", "", "")}, want: []string{"base", "page"}},
 		// an inner layout's own front-matter is its own: the layouts further out still see the page's front-matter and the Fill data
 		c07Graph{desc: "inner-layout-frontmatter-stays-inner", files: map[string]string{"p.vuego": c07Page("a"),
 			"layouts/a.vuego": "---\ntitle: LT\nfromfill: LF\nlayout: b\n---\n" + `<div data-m="a"><i>{{ title }}/{{ fromfill }}</i><div v-html="content"></div></div>`,
@@ -232,7 +238,7 @@ func c07Eval(g c07Graph) *Case {
 	marker := map[string]string{}
 	for n, src := range g.files {
 		l := ""
-		if m := c07LayoutRe.FindStringSubmatch(src); m != nil {
+		if m := c07LayoutRe.FindStringSubmatch(src); m != nil && m[1] != `""` {
 			l = m[1]
 		}
 		fl = append(fl, []any{n, l})
